@@ -119,7 +119,7 @@ func (s *RegScenario) Setup(k *sim.Kernel) {
 	ctx := context.Background()
 	for ai, ops := range s.Actors {
 		ai, ops := ai, ops
-		k.Spawn(fmt.Sprintf("actor%d", ai), func() {
+		k.Spawn(sf("actor%d", ai), func() {
 			var conn *varlink.Connection
 			connect := func() bool {
 				if conn != nil {
@@ -392,7 +392,7 @@ func (s *RegScenario) regModel() porcupine.Model {
 		},
 		DescribeOperation: func(input, output interface{}) string {
 			in := input.(regInput)
-			return fmt.Sprintf("%s(%q) -> %s", in.op, in.name, abbreviate(output.(string), 60))
+			return sf("%s(%q) -> %s", in.op, in.name, abbreviate(output.(string), 60))
 		},
 	}
 }
@@ -714,7 +714,7 @@ func genC13(seed uint64, tier string) Scenario {
 	// the admin actor: registration attempts while serving, shutdowns
 	var admin []RegOp
 	for r := 0; r < rounds; r++ {
-		w := fmt.Sprintf("ev:serve.call:%d", r+1)
+		w := sf("ev:serve.call:%d", r+1)
 		trig := g.Pick("acceptblocked", "bound", "accepted:+1", "", "sleep:50")
 		admin = append(admin, RegOp{Op: "wait", Wait: w + "," + trig})
 		for i, n := 0, g.IntN(3); i < n; i++ {
@@ -752,7 +752,7 @@ func genC13(seed uint64, tier string) Scenario {
 			for i, m := 0, 1+g.IntN(4); i < m; i++ {
 				op := RegOp{}
 				if first {
-					op.Wait = fmt.Sprintf("ev:serve.call:%d,bound", r+1)
+					op.Wait = sf("ev:serve.call:%d,bound", r+1)
 					first = false
 				}
 				switch k := g.IntN(10); {
